@@ -72,6 +72,31 @@ def run_unit(ctx, unit, twin=False, variants=frozenset(), extra=(), rlimit=None,
         meta = json.load(f)
     res = vrun.run_verus(path, extra=extra, rlimit=rlimit, use_cache=ctx.use_cache)
     att = vrun.attribute(meta, res)
+    # a closure contract that does not type-check against the (changed) closure: extract again without it, so that what
+    # rested on it is judged (unprovable) instead of the unit being refused
+    drop = set()
+    for m in att.fatal:
+        mm = re.search(r'mismatched types.*@unit-line (\d+)', m)
+        if mm:
+            try:
+                with open(path, encoding='utf-8') as f:
+                    ln = f.read().split('\n')[int(mm.group(1)) - 1]
+                drop |= set(re.findall(r'/\*cs=([^*]+)\*/', ln))
+            except Exception:
+                pass
+    if drop and not extract.DROP_CLOSURE_SPECS:
+        extract.DROP_CLOSURE_SPECS = set(drop)
+        try:
+            u, path = vrun.build(unit, ctx.repo, twin=twin, variants=variants, tag=tag + '_nocs')
+            with open(os.path.join(vrun.BUILD, 'units', u.name + '.meta.json')) as f:
+                meta = json.load(f)
+            res = vrun.run_verus(path, extra=extra, rlimit=rlimit, use_cache=ctx.use_cache)
+            att = vrun.attribute(meta, res)
+            ctx.lines.append('note: closure contract(s) %s do not type-check against the code any more; judged without them' % sorted(drop))
+        except extract.Unsupported as e:
+            ctx.undecided.append('extract %s: %s' % (unit, e))
+        finally:
+            extract.DROP_CLOSURE_SPECS = set()
     if att.undecided and rlimit is None and not twin:
         # one retry with a doubled resource limit before giving up (never an alarm)
         res2 = vrun.run_verus(path, extra=extra, rlimit=20, use_cache=ctx.use_cache)
